@@ -59,3 +59,18 @@ Proof.
   exists (NpBool false), (NpBool true). split; [reflexivity|]. split; [reflexivity|].
   vm_compute. discriminate.
 Qed.
+
+(* ------------------------------------------------------------------ key columns of two integer dtypes *)
+From EV Require Import SessionMergeTypedP.
+
+Lemma cast_keys_fits a b R : int_like a = true -> (forall v, In v R -> fits b v) -> cast_keys a b R = R.
+Proof.
+  intros Ha H. unfold cast_keys. rewrite <- (map_id R) at 2. apply map_ext_in. intros v Hv.
+  rewrite (cast_fits a b v Ha (H v Hv)). reflexivity.
+Qed.
+
+(* the class of seeded/C19-r3-1: left int32 [1;2;7;7;9], right int64 [1;2;2^32+7;2^33] *)
+Lemma cast_keys_changes_the_join :
+  left_payload 0 [1;2;7;7;9] (cast_keys (DInt 64) (DInt 32) [1;2;4294967303;8589934592]) [11;22;33;44] <>
+  left_payload 0 [1;2;7;7;9] [1;2;4294967303;8589934592] [11;22;33;44].
+Proof. vm_compute. discriminate. Qed.
